@@ -296,8 +296,7 @@ def run(ck: Check):
                        "rank variable / rank / tensor names are drawn from fixed tables that avoid ISL operator words (EQ, NE, ...)"]
     jobs = []
     if thorough:
-        jobs.append(dict(module="MC_EinsumSyntax", cfg="MC_EinsumSyntax_exh_t.cfg", workers=6, timeout=1100, heap="10g", coverage=False))
-        jobs.append(dict(module="MC_EinsumSyntax", cfg="MC_EinsumSyntax_exh_t2.cfg", workers=3, timeout=1100, coverage=False))
+        jobs.append(dict(module="MC_EinsumSyntax", cfg="MC_EinsumSyntax_exh_t2.cfg", workers=6, timeout=1100, coverage=False))
         jobs.append(dict(module="MC_EinsumSyntax", cfg="MC_EinsumSyntax_exh_q2.cfg", workers=2, timeout=1100, coverage=False))
     else:
         jobs.append(dict(module="MC_EinsumSyntax", cfg="MC_EinsumSyntax_exh_q1.cfg", workers=4, timeout=900, coverage=False))
